@@ -3,7 +3,7 @@ import ast
 
 from ..astx import (calls_in, dotted, norm, src, iter_nodes, assigned_targets, assigned_names,
                     const_value, is_const, parent_chain)
-from ..lib import (cfg_nodes_with_call, node_calls, returns, raises, stmt_assigns_attr, callee_last,
+from ..lib import (call_arg, relation, truth, other, cmp_views, core, holds_region, conditions, eval_conditions, relation_tests, atom_key, expand_condition, mode_mismatch_conditions, cfg_nodes_with_call, node_calls, returns, raises, stmt_assigns_attr, callee_last,
                    is_name, is_self_attr, node_roots, guard_region, compare_parts, find_test_nodes)
 from ..linear import ctext
 from ..loader import AnalysisError
@@ -253,14 +253,14 @@ def check_terminate(c, f):
             ok2, p = g.must_pass(by[a], {by[b]}, set(dead_tests), skip_labels=('exc',))
             c.check(ok2, f, by[b].ast, 'a liveness re-check separates %s from %s' % (a, b), witness=g.describe_path(p) if p else None, tag='recheck:%s' % b)
     if 'SIGKILL' in by:
-        ft = [t for t in g.nodes if t.kind == 'test' and norm(t.ast) == 'force']
-        ok = len(ft) == 1 and by['SIGKILL'] in guard_region(g, ft[0], 'true')
+        ft = [t for t in g.nodes if t.kind == 'test' and norm(core(t)) == 'force']
+        ok = len(ft) == 1 and by['SIGKILL'] in holds_region(g, ft[0], True)
         c.check(ok, f, by['SIGKILL'].ast, 'SIGKILL is sent exactly when force is true', tag='kill-iff-force')
         if ok:
             # with force the KILL is on every path that got past INT alive
-            fr = guard_region(g, ft[0], 'true')
-            entry = [s for s, l in ft[0].succ if l == 'true']
-            okm, p = g.must_pass(ft[0], set(n for n in fr if n.kind == 'stmt' and isinstance(n.ast, ast.Return)), {by['SIGKILL']}, skip_labels=('exc', 'false'))
+            fr = holds_region(g, ft[0], True)
+            okm, p = g.must_pass(ft[0], set(n for n in fr if n.kind == 'stmt' and isinstance(n.ast, ast.Return)), {by['SIGKILL']},
+                                 skip_labels=('exc', other(truth(ft[0].ast)[1])))
             c.check(okm, f, by['SIGKILL'].ast, 'with force every path sends SIGKILL before returning', witness=g.describe_path(p) if p else None, tag='force-kills')
             # after KILL a liveness check decides the result
             okr, p = g.must_pass(by['SIGKILL'], {g.exit}, set(dead_tests) | set(waits), skip_labels=('exc',))
